@@ -178,3 +178,62 @@ func VerifH_prefix_twins() {
 		}
 	}
 }
+
+// VerifH_prefix_mixed (C09): one Handle call from an arbitrary state in which
+// the client holds two prefixes; its single IA_PD names one of them exactly and
+// adds an empty hint (nil prefix, or :: with the allocation length). That is a
+// renewal of what it holds: the reply carries the two held prefixes and nothing
+// else, and no block of the pool is consumed - whichever of the two is named
+// (the index of the empty hint and the index of the lease handed back for it
+// differ when the second lease is the one named).
+func VerifH_prefix_mixed() {
+	w := makeWorld()
+	vnd.Assume(len(w.own) == 2)
+	msg := &dhcpv6.Message{MessageType: dhcpv6.MessageTypeRenew}
+	msg.AddOption(dhcpv6.OptClientID(w.client))
+	pd := &dhcpv6.OptIAPD{IaId: [4]byte{0, 0, 0, 1}}
+	named := w.hint(hintOwn)
+	empty := w.hint(hintNil)
+	if vnd.Pick("emptykind", 0, 1) == 1 {
+		empty = &dhcpv6.OptIAPrefix{Prefix: &net.IPNet{IP: make(net.IP, 16), Mask: nil}}
+	}
+	if vnd.Pick("emptyfirst", 0, 1) == 1 {
+		pd.Options.Add(empty)
+		pd.Options.Add(named)
+	} else {
+		pd.Options.Add(named)
+		pd.Options.Add(empty)
+	}
+	msg.AddOption(pd)
+	resp := &dhcpv6.Message{MessageType: dhcpv6.MessageTypeReply}
+	r, _ := w.h.Handle(msg, resp)
+	vnd.Assert(r == dhcpv6.DHCPv6(resp), "C08 request with a client id is answered and passed on")
+	out := resp.Options.IAPD()
+	vnd.Assert(len(out) == 1, "C08 exactly one IA_PD per requested IA_PD")
+	if len(out) != 1 {
+		return
+	}
+	vnd.Cover("mixed-renewal")
+	ps := out[0].Options.Prefixes()
+	for _, p := range ps {
+		held := false
+		for _, o := range w.own {
+			held = held || (p.Prefix != nil && p.Prefix.IP.Equal(o.Prefix.IP) && maskLen(p.Prefix.Mask) == maskLen(o.Prefix.Mask))
+		}
+		vnd.Assert(held, "C09 a renewal naming one held prefix beside an empty hint is answered only with prefixes the client holds")
+	}
+	for _, o := range w.own {
+		found := false
+		for _, p := range ps {
+			found = found || (p.Prefix != nil && p.Prefix.IP.Equal(o.Prefix.IP) && maskLen(p.Prefix.Mask) == maskLen(o.Prefix.Mask))
+		}
+		vnd.Assert(found, "C09 a renewal naming one held prefix beside an empty hint returns every prefix the client holds")
+	}
+	post := w.alloc.VerifWords()
+	same := true
+	for i := range post {
+		same = vnd.And(same, post[i] == w.pre[i])
+	}
+	vnd.Assert(same, "C09 a renewal naming one held prefix beside an empty hint consumes no additional block")
+	vnd.Assert(len(w.h.Records[w.key]) == 2, "C09 a renewal naming one held prefix beside an empty hint leaves the client's record at the prefixes it holds")
+}
